@@ -272,7 +272,11 @@ namespace vh
       {
          state_ctor( *this, state_depth( outer... ) );
       }
-      vstate_c( const vstate_c& ) = delete;
+      vstate_c( const vstate_c& o )      // states are handed on by reference: a copy is reported (and is a state object of its own from then on)
+         : vstate_base( o )
+      {
+         g_out += "COPY-BAD a state object was copied\n";
+      }
       void operator=( const vstate_c& ) = delete;
       ~vstate_c()
       {
@@ -292,7 +296,11 @@ namespace vh
       {
          state_ctor( *this, g_sdepth );
       }
-      vstate_d( const vstate_d& ) = delete;
+      vstate_d( const vstate_d& o )      // states are handed on by reference: a copy is reported (and is a state object of its own from then on)
+         : vstate_base( o )
+      {
+         g_out += "COPY-BAD a state object was copied\n";
+      }
       void operator=( const vstate_d& ) = delete;
       ~vstate_d()
       {
